@@ -115,7 +115,7 @@ pub fn check_text(text: &String, obs: &mut Obs) -> CheckResult {
 }
 
 fn check_file_entry(ctx: &Ctx) {
-    let dir = std::path::Path::new(crate::rt::VERIF_DIR).join("harness").join("target");
+    let dir = crate::rt::verif_dir().join("harness").join("target");
     let _ = std::fs::create_dir_all(&dir);
     let path = dir.join(format!("c19-{}.txt", std::process::id()));
     let missing = dir.join(format!("c19-{}-missing.txt", std::process::id()));
